@@ -20,15 +20,15 @@ theorem stepB {env : Env} {file : AFile} {G : List String} {P : Prog} {F : GFile
 
 theorem sim0 {env : Env} {file : AFile} {G : List String} {P : Prog} {F : GFile} : SimAt env file G P F 0 := by
   refine ⟨?_, ?_, ?_, ?_, ?_, ?_, ?_, ?_, ?_⟩
-  · intro g _ _ η vs gvs w gw _ _; rw [Sem.apply]; trivial
+  · intro g _ _ η vs gvs w gw _ _ _; rw [Sem.apply]; trivial
   · intro b ps r _ _ η vs gvs w gw _ _; rw [Sem.apply]; trivial
-  · intro c η Γ K ρ w gρ gw Bad _ _ _ _ _ _ _; rw [Sem.eval]; trivial
-  · intro m st e η Γ K ρ w gρ gw Bad _ _ _ _ _ _ _ _; rw [Sem.eval]; trivial
-  · intro m st c η Γ K ρ w gρ gw Bad _ _ _ _ _ _ _ _; rw [Sem.eval]; trivial
-  · intro cv st c b η Γ K ρ w gρ gw Bad _ _ _ _ _ _ _ _ _ _ _; rw [Sem.eval]; trivial
-  · intro m st arms d ty η Γ K ρ w gρ gw Bad x en i vs gv _ _ _ _ _ _ _ _ _ _ _ _; rw [Sem.evalArms.eq_def]; trivial
-  · intro m st arms d ty sty η Γ K ρ w gρ gw Bad v gv _ _ _ _ _ _ _ _ _ _ _ _; rw [Sem.evalArms.eq_def]; trivial
-  · intro m st arms d ty η Γ K ρ w gρ gw Bad _ _ _ _ _ _ _ _; rw [Sem.evalArms.eq_def]; trivial
+  · intro c η Γ K ρ w gρ gw Bad _ _ _ _ _ _ _ _; rw [Sem.eval]; trivial
+  · intro m st e η Γ K ρ w gρ gw Bad _ _ _ _ _ _ _ _ _; rw [Sem.eval]; trivial
+  · intro m st c η Γ K ρ w gρ gw Bad _ _ _ _ _ _ _ _ _; rw [Sem.eval]; trivial
+  · intro cv st c b η Γ K ρ w gρ gw Bad _ _ _ _ _ _ _ _ _ _ _ _; rw [Sem.eval]; trivial
+  · intro m st arms d ty η Γ K ρ w gρ gw Bad x en i vs gv _ _ _ _ _ _ _ _ _ _ _ _ _; rw [Sem.evalArms.eq_def]; trivial
+  · intro m st arms d ty sty η Γ K ρ w gρ gw Bad v gv _ _ _ _ _ _ _ _ _ _ _ _ _; rw [Sem.evalArms.eq_def]; trivial
+  · intro m st arms d ty η Γ K ρ w gρ gw Bad _ _ _ _ _ _ _ _ _; rw [Sem.evalArms.eq_def]; trivial
 
 /-! ### tail expressions -/
 
@@ -64,10 +64,27 @@ theorem not_missing {env : Env} {file : AFile} {G : List String} {Γ : Ctx} {f :
 
 /-- the same for a call of the fragment, ordinary or of a reference / array builtin -/
 theorem not_missing' {env : Env} {file : AFile} {G : List String} {Γ : Ctx} {f : Imm} {args : List Imm} {ty : Ty}
-    (h : (callOK env file G Γ f args ty || refCallOK env file Γ f args ty || arrCallOK env file Γ f args ty) = true) :
+    (h : (callOK env file G Γ f args ty || refCallOK env file G Γ f args ty || arrCallOK env file G Γ f args ty ||
+      localCallOK env file G Γ f args ty) = true) :
     isMissingCall f ty = false := by
   simp only [Bool.or_eq_true] at h
-  rcases h with (h | h) | h
+  rcases h with ((h | h) | h) | h
+  rotate_left 3
+  · -- a call through a local
+    cases f with
+    | var x fty =>
+      simp only [localCallOK] at h
+      cases hlk : lookupTy Γ x with
+      | none => rw [hlk] at h; cases h
+      | some t =>
+        rw [hlk] at h
+        cases t <;> simp only at h <;> try (cases h; done)
+        simp only [Bool.and_eq_true, Bool.not_eq_true'] at h
+        obtain ⟨⟨⟨⟨_, hsp⟩, _⟩, _⟩, _⟩ := h
+        simp only [specialCallees, List.contains_cons, List.contains_nil, Bool.or_false, Bool.or_eq_false_iff, beq_eq_false_iff_ne] at hsp
+        simp [isMissingCall, callee, hsp.2.2.2.2.2.2.2.2.2]
+    | prim p t => simp [localCallOK] at h
+    | tag i t => simp [localCallOK] at h
   · exact not_missing h
   · cases f with
     | var name fty =>
@@ -99,10 +116,10 @@ theorem tail_simple {env : Env} {η : Hp} {file : AFile} {G : List String} {P : 
     (hv : SimV env file G P F (n + 1)) (m : Mode) (st : St) (c : CExpr) (Γ : Ctx) (K : KCtx) (ρ : Sem.Env) (w : World)
     (gρ : GEnv) (gw : GWorld) (Bad : List String) (hctl : isCtl c = false)
     (hfrag : fragC env file G Γ K c = true) (hrel : EnvRel env η Γ ρ gρ) (hkrel : KRel K ρ) (hw : WRel env η w gw)
-    (hgood : ∀ y, y ∈ keys gρ → ¬ y ∈ Bad) (htgt : TgtOK m Γ gρ c.annTy) (hus : "_" ∈ Bad)
-    (hcal : ∀ x, x ∈ calleesC c → x ∈ Bad) :
+    (hgood : ∀ y, y ∈ keys gρ → ¬ y ∈ Bad) (htgt : TgtOK m Γ gρ c.annTy) (hus : "_" ∈ Bad) (hfx : FCtx file G Bad η)
+    (hcal : ∀ x, x ∈ calleesC (Γ.map (·.1)) c → x ∈ Bad) :
     Concl env η F (compileSimple env m c) m gρ gw c.annTy (Sem.eval (n + 1) P ρ w c.toExpr) := by
-  have hV := hv c η Γ K ρ w gρ gw Bad hctl hfrag hrel hkrel hw hgood hcal
+  have hV := hv c η Γ K ρ w gρ gw Bad hctl hfrag hrel hkrel hw hgood hfx hcal
   cases m with
   | assign t =>
     obtain ⟨htk, _⟩ := htgt
@@ -207,15 +224,15 @@ theorem tail_ite {env : Env} {η : Hp} {file : AFile} {G : List String} {P : Pro
     (hl : Link env file G P F) (ha : SimA env file G P F n) (m : Mode) (st : St) (c : Imm) (t e : AExpr) (ty : Ty) (Γ : Ctx) (K : KCtx) (ρ : Sem.Env)
     (w : World) (gρ : GEnv) (gw : GWorld) (Bad : List String)
     (hfrag : fragC env file G Γ K (.ite c t e ty) = true) (hrel : EnvRel env η Γ ρ gρ) (hkrel : KRel K ρ) (hw : WRel env η w gw)
-    (hinv : GInv Bad (compileTail env m st (.ite c t e ty)).1 gρ) (htgt : TgtOK m Γ gρ ty) (hus : "_" ∈ Bad)
-    (hcal : ∀ x, x ∈ calleesC (.ite c t e ty) → x ∈ Bad) :
+    (hinv : GInv Bad (compileTail env m st (.ite c t e ty)).1 gρ) (htgt : TgtOK m Γ gρ ty) (hus : "_" ∈ Bad) (hfx : FCtx file G Bad η)
+    (hcal : ∀ x, x ∈ calleesC (Γ.map (·.1)) (.ite c t e ty) → x ∈ Bad) :
     Concl env η F (compileTail env m st (.ite c t e ty)).1 m gρ gw ty (Sem.eval (n + 1) P ρ w (CExpr.ite c t e ty).toExpr) := by
   simp only [fragC, Bool.and_eq_true] at hfrag
   obtain ⟨⟨⟨⟨⟨hc, hcb⟩, hft⟩, hfe⟩, htt⟩, hte⟩ := hfrag
   have htt' := scalarEq_eq htt
   have hte' := scalarEq_eq hte
   have hcb' := scalarEq_eq hcb
-  obtain ⟨v, gv, hs, hg, h3, h4⟩ := imm_both P hl.ty hc hrel
+  obtain ⟨v, gv, hs, hg, h3, h4⟩ := imm_both P hl.ty hc hrel (hfx.rel hinv.goodK)
   rw [hcb'] at h4
   obtain ⟨b, rfl⟩ := hasTy_bool h4
   have := toG_bool h3; subst this
@@ -230,7 +247,7 @@ theorem tail_ite {env : Env} {η : Hp} {file : AFile} {G : List String} {P : Pro
       simp only
       have hinv' : GInv Bad (compileA env m (st.check (okImm env c)) t).1 gρ :=
         hinv.sub (by rw [ndDecls_ite]; exact List.sublist_append_left _ _)
-      have := ha m _ t η Γ K ρ w gρ gw Bad hft hrel hkrel hw hinv' (htt' ▸ htgt) hus
+      have := ha m _ t η Γ K ρ w gρ gw Bad hft hrel hkrel hw hinv' (htt' ▸ htgt) hus hfx
         (fun x hx => hcal x (by simp [calleesC, hx]))
       rw [htt'] at this
       exact concl_of_nest this (fun r0 hn => stmt_ite_true (hg gw) hn)
@@ -238,7 +255,7 @@ theorem tail_ite {env : Env} {η : Hp} {file : AFile} {G : List String} {P : Pro
       simp only
       have hinv' : GInv Bad (compileA env m (compileA env m (st.check (okImm env c)) t).2 e).1 gρ :=
         hinv.sub (by rw [ndDecls_ite]; exact List.sublist_append_right _ _)
-      have := ha m _ e η Γ K ρ w gρ gw Bad hfe hrel hkrel hw hinv' (hte' ▸ htgt) hus
+      have := ha m _ e η Γ K ρ w gρ gw Bad hfe hrel hkrel hw hinv' (hte' ▸ htgt) hus hfx
         (fun x hx => hcal x (by simp [calleesC, hx]))
       rw [hte'] at this
       exact concl_of_nest this (fun r0 hn => stmt_ite_false (hg gw) hn)
@@ -263,8 +280,8 @@ theorem tail_while {env : Env} {η : Hp} {file : AFile} {G : List String} {P : P
     (hL : SimL env file G P F (n + 1)) (m : Mode) (st : St) (c b : AExpr) (ty : Ty) (Γ : Ctx) (K : KCtx) (ρ : Sem.Env)
     (w : World) (gρ : GEnv) (gw : GWorld) (Bad : List String)
     (hfrag : fragC env file G Γ K (.while c b ty) = true) (hrel : EnvRel env η Γ ρ gρ) (hkrel : KRel K ρ) (hw : WRel env η w gw)
-    (hinv : GInv Bad (compileTail env m st (.while c b ty)).1 gρ) (htgt : TgtOK m Γ gρ ty) (hus : "_" ∈ Bad)
-    (hcal : ∀ x, x ∈ calleesC (.while c b ty) → x ∈ Bad) :
+    (hinv : GInv Bad (compileTail env m st (.while c b ty)).1 gρ) (htgt : TgtOK m Γ gρ ty) (hus : "_" ∈ Bad) (hfx : FCtx file G Bad η)
+    (hcal : ∀ x, x ∈ calleesC (Γ.map (·.1)) (.while c b ty) → x ∈ Bad) :
     Concl env η F (compileTail env m st (.while c b ty)).1 m gρ gw ty (Sem.eval (n + 1) P ρ w (CExpr.while c b ty).toExpr) := by
   simp only [fragC, Bool.and_eq_true] at hfrag
   obtain ⟨⟨⟨⟨hfc, hcb⟩, hfb⟩, hbu⟩, htu⟩ := hfrag
@@ -300,7 +317,7 @@ theorem tail_while {env : Env} {η : Hp} {file : AFile} {G : List String} {P : P
       · exact hcvgood
       · exact hinv.goodK y hk
   have htgt1 : TgtOK (.assign cv) Γ env1 .bool := ⟨by simp [env1], hne⟩
-  have hloop := hL cv st' c b η Γ K ρ w env1 gw Bad hfc hcb' hfb hbu' hrel1 hkrel hw hinv1 htgt1 hus
+  have hloop := hL cv st' c b η Γ K ρ w env1 gw Bad hfc hcb' hfb hbu' hrel1 hkrel hw hinv1 htgt1 hus hfx
     (fun x hx => hcal x (by simpa [calleesC] using hx))
   revert hloop
   cases hres : Sem.eval (n + 1) P ρ w (.while c.toExpr b.toExpr) with
@@ -391,14 +408,14 @@ theorem tail_match {env : Env} {η : Hp} {file : AFile} {G : List String} {P : P
     (m : Mode) (st : St) (s : Imm) (arms : List AArm) (d : ADflt) (ty : Ty) (Γ : Ctx) (K : KCtx) (ρ : Sem.Env)
     (w : World) (gρ : GEnv) (gw : GWorld) (Bad : List String)
     (hfrag : fragC env file G Γ K (.matchE s arms d ty) = true) (hrel : EnvRel env η Γ ρ gρ) (hkrel : KRel K ρ) (hw : WRel env η w gw)
-    (hinv : GInv Bad (compileTail env m st (.matchE s arms d ty)).1 gρ) (htgt : TgtOK m Γ gρ ty) (hus : "_" ∈ Bad)
-    (hcal : ∀ x, x ∈ calleesC (.matchE s arms d ty) → x ∈ Bad) :
+    (hinv : GInv Bad (compileTail env m st (.matchE s arms d ty)).1 gρ) (htgt : TgtOK m Γ gρ ty) (hus : "_" ∈ Bad) (hfx : FCtx file G Bad η)
+    (hcal : ∀ x, x ∈ calleesC (Γ.map (·.1)) (.matchE s arms d ty) → x ∈ Bad) :
     Concl env η F (compileTail env m st (.matchE s arms d ty)).1 m gρ gw ty
       (Sem.eval (n + 1) P ρ w (CExpr.matchE s arms d ty).toExpr) := by
   simp only [fragC, Bool.and_eq_true] at hfrag
   obtain ⟨⟨hs, hflat⟩, hcase⟩ := hfrag
-  obtain ⟨v, gv, hsv, hgs, h3, h4⟩ := imm_both P hl.ty hs hrel
-  have hcal' : ∀ c, c ∈ calleesArms arms ++ calleesD d → c ∈ Bad := fun c hc => hcal c (by simpa [calleesC] using hc)
+  obtain ⟨v, gv, hsv, hgs, h3, h4⟩ := imm_both P hl.ty hs hrel (hfx.rel hinv.goodK)
+  have hcal' : ∀ c, c ∈ calleesArms (Γ.map (·.1)) arms ++ calleesD (Γ.map (·.1)) d → c ∈ Bad := fun c hc => hcal c (by simpa [calleesC] using hc)
   simp only [CExpr.toExpr]
   rw [Sem.eval]
   rcases sem_imm_any hsv (w := w) n with h1 | h1
@@ -417,7 +434,7 @@ theorem tail_match {env : Env} {η : Hp} {file : AFile} {G : List String} {P : P
       -- the scrutinee in both environments
       simp only [immOK] at hs
       cases hlt : lookupTy Γ x with
-      | none => rw [hlt] at hs; simp at hs
+      | none => rw [hlt] at hs; simp [fnValOK] at hs
       | some t =>
         rw [hlt] at hs; simp only at hs
         have := scalarEq_eq hs; subst this
@@ -460,7 +477,7 @@ theorem tail_match {env : Env} {η : Hp} {file : AFile} {G : List String} {P : P
         have hbt : ∀ t, m = .assign t → vn x ≠ gid t := fun t ht => by
           subst ht; exact htgt.2 x _ hlt
         have hR := hme m st1 arms d ty η Γ K ρ w ((vn x, gv) :: gρ) gw Bad x en' i vs gv hfa hfd hrelb hkrel hw hlk h4'' h3
-          hinvb htgtb hus hcal'
+          hinvb htgtb hus hfx hcal'
         exact concl_of_tsw hR hxb (ev_var_some hlg) hbt
   | unit =>
     rw [hsty] at hcase h4; simp only at hcase
@@ -468,7 +485,7 @@ theorem tail_match {env : Env} {η : Hp} {file : AFile} {G : List String} {P : P
     have hshape : compileTail env m st (.matchE s arms d ty) = unitStmts env m st arms d := by
       simp only [compileTail, hsty, matchKind, unitStmts]
     rw [hshape] at hinv ⊢
-    exact hmu m st arms d ty η Γ K ρ w gρ gw Bad (by simpa [fragUnit] using hcase) hrel hkrel hw hinv htgt hus hcal'
+    exact hmu m st arms d ty η Γ K ρ w gρ gw Bad (by simpa [fragUnit] using hcase) hrel hkrel hw hinv htgt hus hfx hcal'
   | bool =>
     rw [hsty] at hcase h4; simp only [Bool.and_eq_true] at hcase
     obtain ⟨⟨hsw, hfa⟩, hfd⟩ := hcase
@@ -483,7 +500,7 @@ theorem tail_match {env : Env} {η : Hp} {file : AFile} {G : List String} {P : P
         (compileDflt env m (compileArms env m st1 arms).2 d).1]) gρ := hinv
       rw [ndDecls_switch, armDecls_valueCases] at h
       cases hd : (compileDflt env m (compileArms env m st1 arms).2 d).1 <;> simpa [optDecls, hd] using h
-    have hR := hmv m st1 arms d ty .bool η Γ K ρ w gρ gw Bad v gv hsw hfa hfd hrel hkrel hw h4 h3 hinv' htgt hus hcal'
+    have hR := hmv m st1 arms d ty .bool η Γ K ρ w gρ gw Bad v gv hsw hfa hfd hrel hkrel hw h4 h3 hinv' htgt hus hfx hcal'
     exact concl_of_sw hR (fun r hr => stmt_switch (hgs gw) hr)
   | int bits sg =>
     rw [hsty] at hcase h4; simp only [Bool.and_eq_true] at hcase
@@ -499,7 +516,7 @@ theorem tail_match {env : Env} {η : Hp} {file : AFile} {G : List String} {P : P
         (compileDflt env m (compileArms env m st1 arms).2 d).1]) gρ := hinv
       rw [ndDecls_switch, armDecls_valueCases] at h
       cases hd : (compileDflt env m (compileArms env m st1 arms).2 d).1 <;> simpa [optDecls, hd] using h
-    have hR := hmv m st1 arms d ty (.int bits sg) η Γ K ρ w gρ gw Bad v gv hsw hfa hfd hrel hkrel hw h4 h3 hinv' htgt hus hcal'
+    have hR := hmv m st1 arms d ty (.int bits sg) η Γ K ρ w gρ gw Bad v gv hsw hfa hfd hrel hkrel hw h4 h3 hinv' htgt hus hfx hcal'
     exact concl_of_sw hR (fun r hr => stmt_switch (hgs gw) hr)
   | string =>
     rw [hsty] at hcase h4; simp only [Bool.and_eq_true] at hcase
@@ -515,7 +532,7 @@ theorem tail_match {env : Env} {η : Hp} {file : AFile} {G : List String} {P : P
         (compileDflt env m (compileArms env m st1 arms).2 d).1]) gρ := hinv
       rw [ndDecls_switch, armDecls_valueCases] at h
       cases hd : (compileDflt env m (compileArms env m st1 arms).2 d).1 <;> simpa [optDecls, hd] using h
-    have hR := hmv m st1 arms d ty .string η Γ K ρ w gρ gw Bad v gv hsw hfa hfd hrel hkrel hw h4 h3 hinv' htgt hus hcal'
+    have hR := hmv m st1 arms d ty .string η Γ K ρ w gρ gw Bad v gv hsw hfa hfd hrel hkrel hw h4 h3 hinv' htgt hus hfx hcal'
     exact concl_of_sw hR (fun r hr => stmt_switch (hgs gw) hr)
   | float b => rw [hsty] at hcase; simp [switchTy] at hcase
   | tuple ts => rw [hsty] at hcase; simp [switchTy] at hcase
@@ -534,14 +551,14 @@ theorem stepC {env : Env} {file : AFile} {G : List String} {P : Prog} {F : GFile
     (hv : SimV env file G P F (n + 1)) (ha : SimA env file G P F n) (hL : SimL env file G P F (n + 1))
     (hme : SimME env file G P F n) (hmv : SimMV env file G P F n) (hmu : SimMU env file G P F n) :
     SimC env file G P F (n + 1) := by
-  intro m st c η Γ K ρ w gρ gw Bad hfrag hrel hkrel hw hinv htgt hus hcal
+  intro m st c η Γ K ρ w gρ gw Bad hfrag hrel hkrel hw hinv htgt hus hfx hcal
   by_cases hctl : isCtl c = false
   · rw [compileTail_simple env m st hctl] at hinv ⊢
-    exact tail_simple hv m st c Γ K ρ w gρ gw Bad hctl hfrag hrel hkrel hw hinv.goodK htgt hus hcal
+    exact tail_simple hv m st c Γ K ρ w gρ gw Bad hctl hfrag hrel hkrel hw hinv.goodK htgt hus hfx hcal
   · cases c with
-    | ite c t e ty => exact tail_ite hl ha m st c t e ty Γ K ρ w gρ gw Bad hfrag hrel hkrel hw hinv htgt hus hcal
-    | «while» c b ty => exact tail_while hL m st c b ty Γ K ρ w gρ gw Bad hfrag hrel hkrel hw hinv htgt hus hcal
-    | matchE s arms d ty => exact tail_match hl hme hmv hmu m st s arms d ty Γ K ρ w gρ gw Bad hfrag hrel hkrel hw hinv htgt hus hcal
+    | ite c t e ty => exact tail_ite hl ha m st c t e ty Γ K ρ w gρ gw Bad hfrag hrel hkrel hw hinv htgt hus hfx hcal
+    | «while» c b ty => exact tail_while hL m st c b ty Γ K ρ w gρ gw Bad hfrag hrel hkrel hw hinv htgt hus hfx hcal
+    | matchE s arms d ty => exact tail_match hl hme hmv hmu m st s arms d ty Γ K ρ w gρ gw Bad hfrag hrel hkrel hw hinv htgt hus hfx hcal
     | _ => simp [isCtl] at hctl
 
 end Goml.GoComp
